@@ -8,6 +8,8 @@ import (
 	"reflect"
 	"strings"
 
+	"github.com/ugorji/go/codec"
+
 	"github.com/gammazero/nexus/v3/wamp"
 )
 
@@ -31,6 +33,22 @@ type Serializer interface {
 	Deserialize([]byte) (wamp.Message, error)
 	SerializeDataItem(item any) ([]byte, error)
 	DeserializeDataItem([]byte, any) error
+}
+
+// decodeList decodes data, which must hold a list, into the items of the list.
+//
+// Decoding directly into a slice would also accept a map, which the codec
+// flattens into a list of its keys and values.
+func decodeList(data []byte, h codec.Handle) ([]any, error) {
+	var v any
+	if err := codec.NewDecoderBytes(data, h).Decode(&v); err != nil {
+		return nil, err
+	}
+	list, ok := v.([]any)
+	if !ok {
+		return nil, errors.New("invalid message: not a list")
+	}
+	return list, nil
 }
 
 // listToMsg takes a list of values from a WAMP message and populates the
